@@ -1,9 +1,10 @@
-HP_P = 'hp:slot,gops_k1,gops_k2,gops_k3,acq_k2,acq_k3,acq_int_k1,acq_int_k2,acq_int_k3,acq_int_k5'
+HP_P = 'hp:slot,gops_k1,gops_k2,gops_k3,acq_k2,acq_k3,acq_int_k1,acq_int_k2,acq_int_k3,acq_int_k5,alloc_k1,alloc_k2,dyn_k1_b2,dyn_k2_b2'
 PROP = dict(
-  units=['he:g_ctor_K1,g_assign_K1,g_reset_swap_reclaim_K1,g_acquire_K1,g_acquire_if_equal_K1,int_acquire_K1,int_acquire_if_equal_K1,g_ctor_K2,g_assign_K2,g_reset_swap_reclaim_K2,g_acquire_K2,g_acquire_if_equal_K2,int_acquire_K2,int_acquire_if_equal_K2,g_ctor_K3,g_assign_K3,g_reset_swap_reclaim_K3,g_acquire_K3,g_acquire_if_equal_K3,int_acquire_K3,int_acquire_if_equal_K3', 'hpscan', HP_P, 'ebr', 'qsbr', 'lfrc', 'stampit_guard', 'stampq'],
+  units=['he:g_ctor_K1,g_assign_K1,g_reset_swap_reclaim_K1,g_acquire_K1,g_acquire_if_equal_K1,int_acquire_K1,int_acquire_if_equal_K1,g_ctor_K2,g_assign_K2,g_reset_swap_reclaim_K2,g_acquire_K2,g_acquire_if_equal_K2,int_acquire_K2,int_acquire_if_equal_K2,g_ctor_K3,g_assign_K3,g_reset_swap_reclaim_K3,g_acquire_K3,g_acquire_if_equal_K3,int_acquire_K3,int_acquire_if_equal_K3,slots_alloc_K1,slots_alloc_K2,dyn_alloc_B0_K1,dyn_alloc_B1_K1,dyn_alloc_B2_K1,dyn_init_B1_K1,dyn_init_B2_K1,dyn_alloc_B1_K2,dyn_alloc_B2_K2,dyn_init_B1_K2,dyn_init_B2_K2', 'hpscan', HP_P, 'ebr', 'qsbr', 'lfrc', 'stampit_guard', 'stampq'],
   level='other',
   strict_obligations=True,
-  obligations=['he.acquire.protects', 'he.acquire_if_equal.protects', 'he.acquire.era_stable', 'he.acquire.sync', 'he.sync.publish_then_fence', 'he.acquire.snapshot', 'he.acquire.exc_safe', 'he.acquire_if_equal.exc_safe', 'he.count.exact', 'he.guard_ops.others_intact',
+  obligations=['he.acquire.protects', 'he.acquire_if_equal.protects', 'he.acquire.era_stable', 'he.acquire.sync', 'he.sync.publish_then_fence', 'he.acquire.snapshot', 'he.acquire.exc_safe', 'he.acquire_if_equal.exc_safe', 'he.count.exact', 'he.guard_ops.others_intact', 'he.guard_ops.preserve_inv', 'he.dyn.*', 'he.alloc.*', 'hp.dynamic.*', 'hp.alloc.*',   # a slot that protects is never wiped or handed out twice, also when the dynamic strategy adds a block
+              
                'hpscan.fence_first', 'hpscan.adopt_before_gather', 'hpscan.gather.all_slots', 'hpscan.gather.exact', 'hpscan.search_sorted', 'hpscan.spares_protected', 'hescan.spares_protected_interval', 'hpscan.skips_inactive', 'hpscan.retire.once_then_trigger',
                'hp.acquire.validated', 'hp.acquire.snapshot', 'hp.acquire_if_equal.iff', 'hp.sync.orders', 'hp.copy.shares', 'hp.ctor.protects', 'hp.guard_ops.preserve_inv',
                'ebr.enter.flag_then_fence_then_epoch', 'ebr.acquire.enter_before_load', 'ebr.nesting.balanced', 'ebr.free.three_epochs', 'ebr.free.index_consistent', 'ebr.free.exact',
